@@ -23,7 +23,9 @@ SPEC = {
 NAMES = ['config.txt', 'cmdline.txt', 'start4.elf', 'kernel8.img', 'bcm2711-rpi-4-b.dtb', 'A Long File Name.with.dots.txt',
          'überlänge-ß.dat', 'x', 'lower.txt', 'UPPER.TXT', 'Mixed.Case', '.hidden', 'no_ext_but_long_name', 'ünï.cöd',
          '日本語ファイル.txt', 'emoji \U0001F600 file.bin', 'thirteen_char', 'exactly26characterslongnam', 'a' * 255,
-         'overlays', 'sub dir', 'b.c.d.e', 'trailing~1', "it's (ok) #1 & co.$$$"]
+         'overlays', 'sub dir', 'b.c.d.e', 'trailing~1', "it's (ok) #1 & co.$$$",
+         # a character outside the BMP whose surrogate pair straddles two long-name records (UTF-16 units 12|13, 25|26)
+         'twelve chars\U0001F600 straddles.bin', 'b' * 25 + '\U0001F4BE second boundary.dat', 'c' * 12 + '\U0001F600' * 7]
 
 
 def rand_geometry(rng, thorough):
@@ -76,6 +78,10 @@ def populate(rng, b, budget):
                 b.plant_label(parent)
             elif kind < 0.2:
                 b.plant_orphan_run(parent, rng.choice(['bad-checksum', 'headless', 'before-deleted']))
+            elif kind < 0.23 and 'QUARTE~1.DOC' not in names_here[id(parent)] and (b'QUARTE~1', b'DOC') not in used:
+                b.plant_safe_save(parent, bytes(rng.getrandbits(8) for _ in range(rng.choice([0, 9, b.g.cs + 2]))))
+                names_here[id(parent)].add('QUARTE~1.DOC')
+                names_here[id(parent)].add('QUARTERLY REPORT 2024.DOC')
             elif kind < 0.35 and len(dirs) < 6:
                 alias = fatimg.alias_for(name, used)
                 n = b.add(parent, name, alias, is_dir=True)
